@@ -12,6 +12,7 @@ class MemoryStorage(object):
         # Properties
         self.block_size = block_size
         self.array = bytearray()
+        self.cursor = 0
 
     def __len__(self):
         return len(self.array)
@@ -23,9 +24,17 @@ class MemoryStorage(object):
     # Method clearing the memory
     def clear(self):
         self.array = bytearray()
+        self.cursor = 0
 
     # Method reading a block in the bytearray
-    def read(self, block):
+    # NOTE: like a file, reading without a block continues after the last
+    # block accessed (this is how a node's tail blocks are read)
+    def read(self, block=None):
+        if block is None:
+            block = self.cursor
+
+        self.cursor = block + self.block_size
+
         try:
             return self.array[block : block + self.block_size] or None
         except IndexError:
@@ -42,5 +51,7 @@ class MemoryStorage(object):
             block = len(self.array) - self.block_size
         else:
             self.array[block : block + self.block_size] = data
+
+        self.cursor = block + self.block_size
 
         return block
